@@ -26,6 +26,7 @@ PINS = {
     "C16_fallback_preserves": "wf_ty t = true -> wf true v = true -> conforms t v = true -> serialize e v = Ok bs -> exists x bs', tde_top t bs = Ok x /\\ typed e t 0 v = Some x /\\ tser_top t x = Ok bs' /\\ tde_top t bs' = Ok x",
     "C16_rejects": "wf_ty t = true -> wf true v = true -> conforms t v = false -> serialize e v = Ok bs -> exists err, tde_top t bs = Err err",
     "C16_total": "forall t b, tde_top t b <> Err Fuel",
+    "C16_doc_attr_current": "forall d, rust_string_literal (emit_doc_attr_current d) = Some d",
     "C16_missing_required": "In (id, (true, ft)) fs -> has_id id l = false -> conforms (TStruct fs fb) (VStruct l) = false",
     "C16_wrongly_typed_field": "find_field fs id = Some (true, ft) -> In (id, x) l -> conforms ft x = false -> conforms (TStruct fs fb) (VStruct l) = false",
     "C16_unknown_variant": "find_variant vs id = None -> conforms (TEnum vs false) (VEnum id x) = false",
